@@ -30,6 +30,16 @@ import (
 
 var errInjected = errors.New("iofault: injected fault")
 
+// eofLike is an error that is not io.EOF but answers errors.Is(err, io.EOF) with true (as a transport error that
+// wraps the EOF of the connection it lost does): only io.EOF ITSELF ends a stream regularly.
+type eofLike struct{}
+
+func (eofLike) Error() string        { return "iofault: connection lost" }
+func (eofLike) Is(target error) bool { return target == io.EOF }
+
+// the injected reader fault takes one of these forms, by fault position
+var faultErrs = []error{errInjected, fmt.Errorf("iofault: read: connection reset by peer: %w", io.EOF), io.ErrUnexpectedEOF, eofLike{}, errInjected}
+
 // ---------------------------------------------------------------- fault reader / writer
 
 // faultReader delivers data[:limit] in reads of at most chunk bytes and then returns term forever
@@ -48,7 +58,7 @@ func newFaultReader(doc []byte, k int, chunk int, withData bool) *faultReader {
 	if k > len(doc) { // never fails
 		return &faultReader{data: doc, limit: len(doc), chunk: chunk, term: io.EOF, withData: withData}
 	}
-	return &faultReader{data: doc, limit: k, chunk: chunk, term: errInjected, withData: withData}
+	return &faultReader{data: doc, limit: k, chunk: chunk, term: faultErrs[(k+len(doc))%len(faultErrs)], withData: withData}
 }
 
 func (r *faultReader) Read(p []byte) (int, error) {
